@@ -345,6 +345,15 @@ impl Lut {
         }
     }
 
+    /// Iterator over the Luts of this size positioned on an arbitrary Lut (for external runtime monitors)
+    #[cfg(feature = "verif-hooks")]
+    pub fn verif_iter_from(start: &Lut) -> LutIterator {
+        LutIterator {
+            lut: start.clone(),
+            ok: true,
+        }
+    }
+
     /// Compute the number of nodes in the BDD representing these functions
     ///
     /// Equivalent functions (up to output complementation) are represented by the same BDD node.
